@@ -67,7 +67,7 @@ PROPS["C01"] = {
     "bounds": "engine M: BUFFER_SIZE 2 (quick) / 4 (thorough); 3-4 threads of 1-2 operations each + a drain thread that runs after all others; pre-filled 0..N events; sequence origin any u32; payloads distinct symbolic u32; step bound = sum of the longest acyclic paths + slack (stated per query)",
     "outside": "more than 4 threads / 2 operations per thread; BUFFER_SIZE > 4; orderings weaker than SC; the crossbeam channel; channel-level wake-ups (see C04)",
     "assumptions": [_M_NOTE, "exactly-once oracle: every value received is an accepted (or pre-filled) one, none twice, none lost after the final drain; a panic or an out-of-bounds / dangling access anywhere also counts"],
-    "m": [M("c01_atomic_1p2c_n2_k2"), M("c01_atomic_2p1c_n2_k1"), M("c01_fullsync_2p1c_n2_k1"), 
+    "m": [M("c01_atomic_1p2c_n2_k2"), M("c01_atomic_1p2c_n2_k0"), M("c01_atomic_2p1c_n2_k1"), M("c01_fullsync_2p1c_n2_k1"), 
           M("c01_zc_atomic_1p1c_n2_k1", "thorough"), M("c01_zc_fullsync_1p1c_n2_k1", "thorough"), M("c01_atomic_2p1c_n2_k0", "thorough"), M("c01_atomic_2p2c_n2_k1", "thorough"), M("c01_atomic_2p2c_n4_k3", "thorough"), M("c01_atomic_3p1c_n2_k1", "thorough"),
           M("c01_fullsync_2p2c_n2_k1", "thorough"), M("c01_zc_atomic_2p1c_n2_k1", "thorough"), M("c01_zc_fullsync_2p1c_n2_k1", "thorough")],
     "k": [
@@ -231,5 +231,15 @@ PROPS["C03"] = {
     "functions": ["multi::channels::arc::{atomic,full_sync}::{send, send_derived, consume}", "StreamsManagerBase::{used_streams, wake_stream}", "AtomicMove / FullSyncMove::{publish_movable, consume_movable} and their internals"],
     "m": [M("c03_arc_atomic_2p_1l"), M("c03_arc_atomic_1p_2l_c"), M("c03_arc_full_sync_2p_1l"),
           M("c03_arc_atomic_1p2_2l", "thorough"), M("c03_arc_atomic_2p_1l_c", "thorough"), M("c03_arc_atomic_2p_2l", "thorough"), M("c03_arc_full_sync_1p2_2l", "thorough"), M("c03_arc_atomic_2p2_1l", "thorough")],
+    "k": [],
+}
+PROPS["C09"] = {
+    "engine": "mir-bmc", "technique": _M_TECH,
+    "bounds": "engine M: the log topic MMapMeta<u32> with 4 slots (publish_movable / publish; subscribe_to_new_events_only, subscribe_to_separated_old_and_new_events, subscribe_to_joined_old_and_new_events; the Dynamic and Fixed subscribers' consume): 1-2 publishers x 1-2 events (2-3 events in total), one listener (two in thorough) that subscribes at any point of the publishers' progress, polls 0-1 times concurrently, then -- after the publishers returned -- drains; every interleaving of the visible steps, in particular the subscription between a publisher's position reservation (fetch_add on publisher_tail) and its publication (CAS on consumer_tail)",
+    "outside": "the file and the mapping themselves (open/mmap are FFI: the mapped region is modelled as the memory it provides), growth beyond the mapped slots, crash consistency (not offered upstream), the old-only subscription (todo!() upstream); the channel wrapper MmapLog (stream bookkeeping is StreamsManagerBase, see C07/C10; its consume() closures ARE the ones used here); more than 2 listeners / 3 events",
+    "assumptions": [_M_NOTE, "listeners drain only after the publishers have returned (a harness barrier), so 'yields the entire history' is decidable at the end of the run; before the barrier they poll at solver-chosen moments"],
+    "functions": ["MMapMeta::{publish, publish_movable, subscribe_to_new_events_only, subscribe_to_separated_old_and_new_events, subscribe_to_joined_old_and_new_events, buffer_as_slice_mut}", "MMapMetaDynamicSubscriber::consume", "MMapMetaFixedSubscriber::consume", "closures of MmapLog::consume"],
+    "m": [M("c09_split_vs_publisher"), M("c09_joined_vs_two_publishers"), M("c09_newonly_vs_publisher"), M("c09_split_vs_two_publishers"), M("c09_joined_and_split"), M("c09_split_vs_three_events"),
+          M("c09_split1_vs_three_events", "thorough"), M("c09_three_publishers_joined", "thorough"), M("c09_two_splits", "thorough"), M("c09_split_and_newonly_vs_two_publishers", "thorough")],
     "k": [],
 }
